@@ -318,3 +318,118 @@ pub fn sweep_point<const N: usize>(new: u16, event: u16) -> (bool, bool) {
     let got = q.should_notify();
     (got, vring_need_event(event, new, new.wrapping_sub(N as u16)))
 }
+
+// ---------------------------------------------------------------------------------------------
+// (c') Stocked receive queue: a notify-only device must learn about every re-posted buffer, and
+// the blocking wait_for_event helper must return as soon as the event is there.
+
+pub fn run_rx_restock() {
+    use crate::cosim::{Action, CoDevice};
+    use crate::drivers::{DWorld, Kind, TKind, TransportVisitor, F_EVENT_IDX, F_VERSION_1, VSOCK_RX};
+    use crate::vsock_ref::{Hdr, OP_RESPONSE, OP_RW};
+    use virtio_drivers::device::socket::{VirtIOSocket, VsockAddr, VsockConnectionManager, VsockEventType};
+    struct V;
+    impl TransportVisitor for V {
+        type Out = ();
+        fn visit<T: virtio_drivers::transport::Transport + 'static>(self, t: T, w: &DWorld) {
+            let event_idx = w.dev.borrow().offered & F_EVENT_IDX != 0;
+            // The device fetches available buffers only when it is notified.
+            let co = CoDevice::new(w.dev.clone(), Box::new(|q, _c, _r| if q == 1 { Action::Complete(vec![], 0) } else { Action::Hold }));
+            co.borrow_mut().poll_on_spin = false;
+            crate::cosim::install(&co);
+            let spins = Rc::new(RefCell::new((0u32, 0u32, None::<Vec<u8>>))); // (spins, deliver at, packet)
+            {
+                let co2 = co.clone();
+                let sp = spins.clone();
+                crate::mmio::set_spin_handler(Some(Box::new(move |_site| {
+                    let mut s = sp.borrow_mut();
+                    s.0 += 1;
+                    if s.0 > 8 {
+                        panic!("LAB-LIVELOCK: wait_for_event does not return");
+                    }
+                    if s.0 == s.1 {
+                        if let Some(p) = s.2.take() {
+                            let mut c = co2.borrow_mut();
+                            let n = c.held.get(&0).map(|h| h.len()).unwrap_or(0);
+                            if n == 0 {
+                                panic!("LAB-LOST-WAKEUP");
+                            }
+                            let chain = c.held.get_mut(&0).unwrap().remove(0);
+                            let len = p.len() as u32;
+                            c.complete(0, &chain, &p, len);
+                        }
+                    }
+                })));
+            }
+            let sock = VirtIOSocket::<LabHal, T, VSOCK_RX>::new(t).expect("socket");
+            let mut cm = VsockConnectionManager::new_with_capacity(sock, 64);
+            let peer = VsockAddr { cid: 2, port: 80 };
+            cm.connect(peer, 1234).expect("connect");
+            let hdr = |op: u16, len: u32| Hdr { src_cid: 2, dst_cid: 0x0000_0001_0000_0003, src_port: 80, dst_port: 1234, len, typ: 1, op, flags: 0, buf_alloc: 1 << 20, fwd_cnt: 0 };
+            // 20 packets, more than twice the queue size: every buffer is re-posted at least once.
+            for i in 0..20u32 {
+                let known = co.borrow().held.get(&0).map(|h| h.len()).unwrap_or(0);
+                if known == 0 {
+                    // The device knows no buffer. Has the driver posted some without telling it?
+                    let c = co.borrow();
+                    let rq = c.queues.get(&0).unwrap();
+                    let pending = rq.pending().unwrap_or(0);
+                    report(Violation::new("C05", "lost-wakeup", format!("packet {}: the device (notify-only, suppression off) knows no receive buffer although the driver has made {} available since the last notification", i, pending)));
+                    break;
+                }
+                let mut p = if i == 0 { hdr(OP_RESPONSE, 0).encode() } else { hdr(OP_RW, 1).encode() };
+                if i > 0 {
+                    p.push(i as u8);
+                }
+                let at = if i < 8 { 1 + choose(2, "spin at which the packet arrives") as u32 } else { 1 + (i % 2) };
+                *spins.borrow_mut() = (0, at, Some(p));
+                let r = crate::util::catch(|| cm.wait_for_event());
+                let s = spins.borrow().0;
+                tag("wait_for_event");
+                match r {
+                    Ok(Ok(ev)) => {
+                        let ok = if i == 0 { ev.event_type == VsockEventType::Connected } else { ev.event_type == VsockEventType::Received { length: 1 } };
+                        if !ok {
+                            report(Violation::new("C18", "event-mismatch", format!("wait_for_event returned {:?} for packet {}", ev, i)));
+                        }
+                        if s != at {
+                            report(Violation::new("C05", "late-return", format!("the event arrived at spin {} but wait_for_event returned after {} spins", at, s)));
+                        }
+                    }
+                    Ok(Err(e)) => report(Violation::new("C05", "helper-error", format!("wait_for_event -> {:?}", e))),
+                    Err(p) => {
+                        let k = if p.contains("LOST-WAKEUP") { "lost-wakeup" } else { "helper-does-not-return" };
+                        report(Violation::new("C05", k, format!("wait_for_event for packet {}: {} (device is notify-only; event_idx {})", i, p, event_idx)));
+                        break;
+                    }
+                }
+                if i > 0 {
+                    let mut b = [0u8; 4];
+                    let _ = cm.recv(peer, 1234, &mut b);
+                }
+                // A spec-following device asks to be told about the next buffer.
+                {
+                    let mut c = co.borrow_mut();
+                    let rq = c.queues.get_mut(&0).unwrap();
+                    if event_idx {
+                        let la = rq.last_avail;
+                        let _ = rq.set_avail_event(la);
+                    } else {
+                        let _ = rq.set_used_flags(0);
+                    }
+                }
+                crate::engine::chooser::obs(s as u64);
+            }
+            drop(cm);
+            crate::cosim::uninstall();
+        }
+    }
+    hal::reset();
+    let feats = [F_VERSION_1, F_VERSION_1 | F_EVENT_IDX, F_VERSION_1 | F_EVENT_IDX | crate::drivers::F_INDIRECT];
+    let offered = feats[choose(feats.len(), "offered features")];
+    let mut cfg = vec![0u8; 8];
+    cfg.copy_from_slice(&0x0000_0001_0000_0003u64.to_le_bytes());
+    let w = DWorld::new(Kind::Socket, TKind::Model, offered, cfg);
+    w.with_transport(V);
+    crate::mmio::set_handler(None);
+}
